@@ -804,6 +804,12 @@ func walk(r *simkit.Run, prop string) {
 			checkConverged(ctx, r, w, obs, dir, desired, step, reached, fresh)
 		case "C05":
 			checkRows(r, beforeRows, readRows(obs), changes, step, reached)
+			// A differ never proposes a rename; a user (or a diff hook) does. A hand-written change list that
+			// renames one column and drops another is planned and run inside a transaction that is rolled
+			// back: the renamed column survives, so its values must.
+			if !r.Failed() && t.Chance("hand-written-rename-with-drop", 1, 4) {
+				checkRenameRows(ctx, r, w, step)
+			}
 		case "C03":
 			checkExports(ctx, r, w, dir, step, reached)
 		case "C17":
@@ -1412,7 +1418,32 @@ func checkRename(ctx context.Context, r *simkit.Run, w *world, obs *sql.DB, step
 	from, to := start.Schemas[0].Tables[ti], next.Schemas[0].Tables[ti]
 	var changes []schema.Change
 	what := ""
-	if t.Chance("rename-a-column", 1, 2) {
+	// A third hand-written change: DROP TABLE of a table whose AUTOINCREMENT start the caller states
+	// through the Go API (sqlite.AutoIncrement{Seq: n}; no inspection ever sets it). The reverse is
+	// then CREATE TABLE, a row for sqlite_sequence where the connection has none, and the indexes.
+	if seqT := autoIncTables(start.Schemas[0]); len(seqT) > 0 && t.Chance("drop-a-table-with-a-sequence-start", 1, 3) {
+		from = seqT[t.Draw("sequence-table", len(seqT))]
+		seq := int64(1 + t.Draw("sequence-start", 500))
+		for _, a := range from.PrimaryKey.Parts[0].C.Attrs {
+			if inc, ok := a.(*sqlite.AutoIncrement); ok {
+				inc.Seq = seq
+			}
+		}
+		for _, a := range from.PrimaryKey.Attrs {
+			if inc, ok := a.(*sqlite.AutoIncrement); ok {
+				inc.Seq = seq
+			}
+		}
+		changes = []schema.Change{&schema.DropTable{T: from}}
+		what = fmt.Sprintf("drop-with-sequence %s (start %d, %d indexes)", from.Name, seq, len(from.Indexes))
+		var n int
+		if obs.QueryRow("SELECT count(*) FROM sqlite_sequence WHERE name = ?", from.Name).Scan(&n) != nil || n == 0 {
+			r.Probe("hand-written-drop-with-sequence/no-sequence-row-yet")
+			if len(from.Indexes) > 0 {
+				r.Probe("hand-written-drop-with-sequence/no-sequence-row-yet-and-indexes")
+			}
+		}
+	} else if t.Chance("rename-a-column", 1, 2) {
 		var cand []int
 		for i, c := range from.Columns {
 			gen := false
@@ -1500,6 +1531,188 @@ func checkRename(ctx context.Context, r *simkit.Run, w *world, obs *sql.DB, step
 			}
 		}
 	}
+}
+
+// checkRenameRows hands the planner a change list no differ writes: one column of a table is renamed
+// and another is dropped (sometimes the renamed column takes the name of the dropped one). The plan, if
+// there is one and the engine accepts it, runs inside a transaction that is always rolled back; the
+// values the renamed column held must be the values the column holds under its new name.
+func checkRenameRows(ctx context.Context, r *simkit.Run, w *world, step int) {
+	const prop = "C05"
+	t := r.T
+	drv, err := sqlite.Open(w.db)
+	if err != nil {
+		simkit.Harnessf("sqlite.Open: %v", err)
+	}
+	start, next := inspectRealm(ctx, drv), inspectRealm(ctx, drv)
+	if start == nil || next == nil || len(start.Schemas) != 1 || len(start.Schemas[0].Tables) == 0 {
+		return
+	}
+	ti := t.Draw("rename-with-drop-table", len(start.Schemas[0].Tables))
+	from, to := start.Schemas[0].Tables[ti], next.Schemas[0].Tables[ti]
+	// Candidates: regular columns outside the primary key.
+	var cand []int
+	for i, c := range from.Columns {
+		plain := true
+		for _, a := range c.Attrs {
+			if _, ok := a.(*schema.GeneratedExpr); ok {
+				plain = false
+			}
+		}
+		if from.PrimaryKey != nil {
+			for _, p := range from.PrimaryKey.Parts {
+				plain = plain && p.C != c
+			}
+		}
+		if plain {
+			cand = append(cand, i)
+		}
+	}
+	if len(cand) < 2 {
+		r.Probe("hand-written-rename-with-drop/no-two-plain-columns")
+		return
+	}
+	k := t.Draw("renamed-column", len(cand))
+	ai := cand[k]
+	cand = append(cand[:k:k], cand[k+1:]...)
+	di := cand[t.Draw("dropped-column", len(cand))]
+	oldA, oldD := from.Columns[ai], from.Columns[di]
+	newName := oldA.Name + "_rn"
+	takesName := t.Chance("renamed-column-takes-the-dropped-name", 1, 2)
+	if takesName {
+		newName = oldD.Name
+	}
+	newA, gone := to.Columns[ai], to.Columns[di]
+	newA.Name = newName
+	to.Columns = append(to.Columns[:di:di], to.Columns[di+1:]...)
+	// Indexes and foreign keys over the dropped column go with it.
+	var ixs []*schema.Index
+	for _, ix := range to.Indexes {
+		keep := true
+		for _, p := range ix.Parts {
+			keep = keep && p.C != gone && p.C != nil
+		}
+		if keep {
+			ixs = append(ixs, ix)
+		}
+	}
+	to.Indexes = ixs
+	var fks []*schema.ForeignKey
+	for _, fk := range to.ForeignKeys {
+		keep := true
+		for _, c := range fk.Columns {
+			keep = keep && c != gone
+		}
+		if keep {
+			fks = append(fks, fk)
+		}
+	}
+	to.ForeignKeys = fks
+	inner := []schema.Change{&schema.RenameColumn{From: oldA, To: newA}, &schema.DropColumn{C: oldD}}
+	if t.Chance("drop-listed-first", 1, 3) {
+		inner[0], inner[1] = inner[1], inner[0]
+	}
+	what := fmt.Sprintf("%s: rename %s -> %s, drop %s", from.Name, oldA.Name, newName, oldD.Name)
+	plan, err := drv.PlanChanges(ctx, "rename-with-drop", []schema.Change{&schema.ModifyTable{T: to, Changes: inner}}, planOpts(false)...)
+	if err != nil {
+		r.Probe("hand-written-rename-with-drop/not-planned")
+		if takesName {
+			r.Probe("hand-written-rename-with-drop/not-planned/takes-dropped-name")
+		}
+		r.Logf("step %d: hand-written %s: not planned: %v", step, what, err)
+		return
+	}
+	q := func(s string) string { return "`" + s + "`" }
+	// The way Atlas's own SQLite transactions are opened (Driver.OpenTx): foreign keys are switched
+	// off *before* BEGIN, because the plan's own PRAGMA is a no-op inside a transaction and a rebuild's
+	// DROP TABLE would otherwise act as a DELETE on the rows that reference the table.
+	tx, err := w.db.Conn(ctx)
+	if err != nil {
+		simkit.Harnessf("conn: %v", err)
+	}
+	defer tx.Close()
+	var fkOn int
+	if err := tx.QueryRowContext(ctx, "PRAGMA foreign_keys").Scan(&fkOn); err != nil {
+		simkit.Harnessf("pragma: %v", err)
+	}
+	if _, err := tx.ExecContext(ctx, "PRAGMA foreign_keys = off"); err != nil {
+		simkit.Harnessf("pragma off: %v", err)
+	}
+	if _, err := tx.ExecContext(ctx, "BEGIN"); err != nil {
+		simkit.Harnessf("begin: %v", err)
+	}
+	defer func() {
+		if _, err := tx.ExecContext(ctx, "ROLLBACK"); err != nil {
+			simkit.Harnessf("rollback: %v", err)
+		}
+		if _, err := tx.ExecContext(ctx, fmt.Sprintf("PRAGMA foreign_keys = %d", fkOn)); err != nil {
+			simkit.Harnessf("pragma restore: %v", err)
+		}
+	}()
+	values := func(col string) ([]string, error) {
+		rs, err := tx.QueryContext(ctx, fmt.Sprintf("SELECT quote(%s) FROM %s ORDER BY 1", q(col), q(from.Name)))
+		if err != nil {
+			return nil, err
+		}
+		defer rs.Close()
+		var out []string
+		for rs.Next() {
+			var v string
+			rs.Scan(&v)
+			out = append(out, v)
+		}
+		return out, rs.Err()
+	}
+	before, err := values(oldA.Name)
+	if err != nil {
+		simkit.Harnessf("values before: %v", err)
+	}
+	for _, c := range plan.Changes {
+		if _, err := tx.ExecContext(ctx, c.Cmd, c.Args...); err != nil {
+			r.Probe("hand-written-rename-with-drop/refused-by-the-engine")
+			r.Logf("step %d: hand-written %s: engine refuses %s: %v", step, what, c.Cmd, err)
+			return
+		}
+	}
+	r.Probe("hand-written-rename-with-drop/executed")
+	if len(before) > 0 {
+		r.Probe("hand-written-rename-with-drop/executed-on-populated-table")
+	}
+	r.Sample("step %d: a hand-written change list (%s): plan %s", step, what, strings.TrimSpace(planText(plan)))
+	after, err := values(newName)
+	if err != nil {
+		r.Fail(prop, "renamed-column-values", "renamed-column-missing", "step %d: after the hand-written change (%s) column %s cannot be read: %v\nplan:\n%s", step, what, newName, err, planText(plan))
+		return
+	}
+	if strings.Join(before, "\x00") != strings.Join(after, "\x00") {
+		sig := "renamed-column-values-lost"
+		if len(before) != len(after) {
+			sig = "rows-lost/hand-written-rename-with-drop"
+		}
+		r.Fail(prop, "renamed-column-values", sig, "step %d: the hand-written change (%s) was planned and executed, but the values of the renamed column were not carried over:\nbefore (%s): %v\nafter (%s): %v\nplan:\n%s", step, what, oldA.Name, firstStrs(before, 8), newName, firstStrs(after, 8), planText(plan))
+	}
+}
+
+func firstStrs(s []string, n int) []string {
+	if len(s) > n {
+		return s[:n]
+	}
+	return s
+}
+
+// autoIncTables returns the tables of s whose single-column primary key is AUTOINCREMENT.
+func autoIncTables(s *schema.Schema) []*schema.Table {
+	var out []*schema.Table
+	for _, tb := range s.Tables {
+		if pk := tb.PrimaryKey; pk != nil && len(pk.Parts) == 1 && pk.Parts[0].C != nil {
+			for _, a := range pk.Parts[0].C.Attrs {
+				if _, ok := a.(*sqlite.AutoIncrement); ok {
+					out = append(out, tb)
+				}
+			}
+		}
+	}
+	return out
 }
 
 func afterMarker(s, marker string) string {
